@@ -454,7 +454,7 @@ def _longtime(prog: Program, res: Result):
         for c in ast.walk(f2.node):
             if isinstance(c, ast.Call) and attr_chain(c.func) == "calc_g_func_for_multiple_lengths":
                 n_calls += 1
-                over = [k.arg for k in c.keywords if k.arg in want or k.arg == "segment_ratios"] + (["<positional>"] if len(c.args) > 12 else [])
+                over = [k_ for k_ in bind_args(fi, c) if k_ in want or k_ == "segment_ratios"]
                 res.ob("R11.4", f"{fq.replace('ghedesigner.', '')}: does not override boundary / segments / solver", not over, prog.loc(f2, c))
                 if over:
                     res.violation("R11.4", f"override|{fq}|{over}", prog.loc(f2, c), fq, f"the long-time g-function is requested with overridden {over}")
@@ -464,7 +464,7 @@ def _longtime(prog: Program, res: Result):
     fw = [c for c in ast.walk(fi.node) if isinstance(c, ast.Call) and attr_chain(c.func) == "calculate_g_function"]
     if len(fw) != 1:
         raise AnalysisError(f"{q}: call of calculate_g_function not found")
-    kw = {k.arg: ast.unparse(k.value) for k in fw[0].keywords}
+    kw = {k: ast.unparse(v) for k, v in bind_args(prog.func(f"{GF}.calculate_g_function"), fw[0]).items()}
     ok = all(kw.get(k) == k for k in ("n_segments", "segments", "solver", "boundary"))
     res.ob("R11.4", "the set-up parameters are forwarded unchanged to calculate_g_function", ok, prog.loc(fi, fw[0]))
     if not ok:
